@@ -21,7 +21,7 @@ PROPERTY = "C10"
 META = dict(
     explanation="Histories are sequences of the public ForSys calls; each choice is a symbolic integer, so the explorer covers "
                 "every history inside the bound, and inside each history every tangent value and every back-end result.",
-    bounds=dict(tissues="T3 and K3 two-frame series", prefix_length="4 warm-up builds + 1 free call (quick; K3 thorough) or 2 free calls (T3 thorough) + 4 canonical calls",
+    bounds=dict(tissues="T3 and K3 two-frame series", prefix_length="4 warm-up builds + 1 free call (quick) or 2 free calls (thorough) + 4 canonical calls, T3; K3 only for the store contents",
                 alphabet="build_force_matrix(t), solve_stress(t, method in default/lsq/lsq_linear[/fix_stress], b_matrix none/velocity, "
                          "angle_limit default/2pi/3), build_pressure_matrix(t), solve_pressure(t), get_system_velocity_per_frame()",
                 frames="2"),
@@ -288,9 +288,8 @@ def jobs(tier):
     if quick:
         plan = [("T3", 1, 1, range(nal), True), ("T3", 1, 1, range(nal2), False)]
     else:
-        # measured: one two-call T3 history job explores 180..1920 paths (3..15 min); K3 two-call histories do not finish in 90 min
-        plan = [("T3", 1, 2, range(nal), True), ("T3", 0, 1, range(nal), True), ("T3", 1, 2, range(nal2), False),
-                ("K3", 1, 1, range(0, nal, 3), True), ("K3", 1, 1, range(0, nal2, 3), False)]
+        # measured: one two-call T3 history job explores 180..1100 paths (1..5 min); K3 histories do not finish one job in 40 min (outside)
+        plan = [("T3", 1, 2, range(nal), True), ("T3", 0, 1, range(nal), True), ("T3", 1, 2, range(nal2), False)]
     for topo, t, L, firsts, rebuild in plan:
         for first in firsts:
             name = f"history-{topo}-t{t}-first{first}-len{L}" if rebuild else f"history-{topo}-resolve-without-rebuild-first{first}-len{L}"
